@@ -107,6 +107,15 @@ let devent s = match next s with
   | 3 -> DDecide (nextn s)
   | _ -> DOther
 
+let pevent s = match next s with
+  | 0 -> let l = lit s in let lv = nextn s in let r = nextn s in PEAssign (l, lv, r)
+  | 1 -> PEUndoLast
+  | 2 -> PEUndoUntil (nextn s)
+  | 3 -> let lv = nextn s in let n = nextn s in PEPropagate (lv, n)
+  | 4 -> PEResult (optn s)
+  | _ -> PEOther
+let owatch s = let k = next s in if k = 0 then None else (let a = lit s in let b = lit s in Some (a, b))
+
 let b x = if x then "1" else "0"
 let plist l = String.concat " " (List.map (fun x -> string_of_int (int_of_n x)) l)
 let polist = function None -> "none" | Some l -> "some " ^ plist l
@@ -235,6 +244,11 @@ let () =
               let db = rep s clause in let evs = rep s levent in
               let (n, ok) = check_analyses db evs in
               Printf.sprintf "%d %s" (int_of_n n) (b ok)
+            | "propagates" ->
+              (* db initial-watches asserted-clause-ids pevents -> calls-compared assignments-compared all-equal *)
+              let db = rep s clause in let init = rep s owatch in let asserted = nlist s in let evs = rep s pevent in
+              let (((nc, na), ok), hyp) = check_propagates db init asserted evs in
+              Printf.sprintf "%d %d %s %s" (int_of_n nc) (int_of_n na) (b ok) (b hyp)
             | "decides" ->
               (* U db devents -> number-of-decide-calls all-equal-to-the-model (default activity parameters) *)
               let u = universe s in let db = rep s clause in let evs = rep s devent in
